@@ -87,8 +87,8 @@ CLAIMS.update({
                 "member rectangle, contains_rectangle IN/OUT/PART by closed-form intervals and ghost points, not_empty/n_rects/extents/"
                 "rectangles, translate (in-range branch: every rectangle shifted exactly; 16-bit clamp/discard branches; every (dx,dy)); "
                 "proof level for empty/single-rectangle regions over the full coordinate domain in both instantiations.",
-        "note": "Bounded: 2..4 rectangles (3 for translate), exact PART classification on coordinates in [-8,8], init_from_image only width "
-                "<=3 x height 1 (effectively unverified beyond that). No unbounded loop contracts. 5 genuine defects of translate are known "
+        "note": "Bounded: 2..4 rectangles (3 for translate), exact PART classification on coordinates in [-8,8], init_from_image decomposed: scan with a recording stub for bitmap_addrect at widths 33..96 (all bits symbolic), "
+                "bitmap_addrect against that contract, end to end on images up to 8x3 (bounded). No unbounded loop contracts. 5 genuine defects of translate are known "
                 "findings (int overflow before widening in the 32-bit instantiation, empty rectangle kept at the range border, all-discarded "
                 "case reads box[-1], bands left unmerged).",
     },
@@ -98,7 +98,8 @@ CLAIMS.update({
                 "bits and changes no bit outside the addressed pixels (ghost bit anywhere in the image memory), read/write round trips, "
                 "scanline reader == single-pixel reader, the accessor build goes through the callbacks only and behaves identically, "
                 "setup_accessors installs exactly the table row of the format, unorm/float converters round-trip and clamp.",
-        "note": "Scanline loops are unrolled (width <=4 quick / 8 thorough): bounded. Indexed store side only against a fixed palette. "
+        "note": "Generic float glue (store/fetch_scanline_generic_float, single-pixel float readers) against recording stubs and the converters' "
+                "contracts, widths to 600. Scanline loops are unrolled (width <=4 quick / 8 thorough): bounded. Indexed store side only against a fixed palette. "
                 "yuy2, yv12, sRGB: only 'scanline reader == single-pixel reader' (relational, bounded); 10-bpc and float formats, dithering, "
                 "big-endian layout: not covered.",
     },
@@ -207,7 +208,8 @@ CLAIMS.update({
                 "per-row coverage of rasterize_edges_1/4/8 (both accessor builds): new value == saturate(old + number of grid columns in "
                 "[lx,rx)) for every edge position, neighbours and padding unchanged; row-level tiling lemma; edge stepping invariants; "
                 "pixman_rasterize_trapezoid / pixman_add_traps row range, clamps and walker positions with the rasteriser replaced by a "
-                "recording stub.",
+                "recording stub; pixman_edge_init as a function of the line (abscissa at the first sample row rounded down, forward and "
+                "backward stepping; reduced operand width).",
         "note": "Row jobs bounded in image width (96/8/8 pixels) and one sample row; the a8 deferred long-span fill across sample rows by 13 "
                 "scenario jobs (pixel indices of the span ends fixed per job, sub-pixel parts symbolic; bounded); edge "
                 "conservation at reduced operand width; whole-call additivity and offset commutation are derived, not checked. The x grid "
@@ -217,10 +219,15 @@ CLAIMS.update({
     "C13": {
         "text": "Integer/safety half only: gradient_walker_reset stop search stays inside the n+2 sentinel array and brackets the folded "
                 "position for every repeat mode; gradient_property_changed sentinels equal a literal table; _pixman_init_gradient allocation "
-                "size/failure/no leak; linear_get_scanline terminates and stays in bounds for coincident points.",
-        "note": "Bounded: <= 4 stops, one fixed degenerate linear case, width <= 2. radial/conical scanline safety NOT attempted. The colour half "
-                "of the property (interpolated colour within one 8-bit step, radial root selection, atan2) is not decidable with CBMC (no "
-                "reals, no models of sqrt/atan2) and is not claimed. Known findings: sentinel arithmetic overflows for absurd stop positions.",
+                "size/failure/no leak; linear_get_scanline terminates and stays in bounds for coincident points. Geometry/interpolation on input "
+                "grids (bounded): the gradient walkers leave the half-open neighbouring stop pair around the folded parameter cached for any "
+                "previous state and return the premultiplied linear interpolation within one step; linear_get_scanline hands the walker the "
+                "projection of the transformed pixel centre onto p1-p2 (affine with w != 1 and projective included); "
+                "linear_gradient_is_horizontal only if the parameter is row independent; radial_write_color's t solves the two-circle "
+                "equation and is the larger admissible root (a == 0 branch included).",
+        "note": "Bounded: <= 4 stops, one fixed degenerate linear case, width <= 2; every geometry/colour job is on a finite input grid with <= 3 "
+                "stops and a stated tolerance (none is a proof). Real-valued accuracy for all inputs, radial gradients under a transform, "
+                "conical gradients (atan2 has no model), the _wide scanline variants: not decided. Known findings: sentinel arithmetic overflows for absurd stop positions.",
     },
     "C18": {
         "text": "Separable-convolution blocks: n_values == 4 + w*2^bx + h*2^by, exactly one allocation of that size, header decodes to the "
